@@ -130,7 +130,7 @@ fn writers(pk: &Packet, refp: &[u8], refc: &[u8], k: usize, case: &mut Case, swe
 }
 
 /// (packet, writer start offset k, sweep all capacities?)
-type In = (Sharing, u16, bool);
+pub type In = (Sharing, u16, bool);
 
 fn check(input: &In, case: &mut Case) -> Result<(), Fail> {
     let (s, k, sweep) = input;
@@ -161,4 +161,8 @@ pub fn def() -> CheckDef {
         assumptions: vec!["same exclusions as C02", "the final cursor position is not part of the statement and is not checked"],
         sections: vec![Box::new(PropSection { name: "writers", rule: "framing and writer agreement", strategy, cases: (8_000, 150_000), check })],
     }
+}
+
+pub fn check_pub(input: &In, case: &mut Case) -> Result<(), Fail> {
+    check(input, case)
 }
